@@ -71,11 +71,11 @@ func (in *Interp) binop(op token.Token, xv, yv Value, xt, yt, rt types.Type) (Va
 	case token.GEQ:
 		return B.Le(y, x), nil
 	case token.ADD:
-		return B.Wrap(B.Add(x, y), signed, bits), nil
+		return in.wrap(B.Add(x, y), signed, bits), nil
 	case token.SUB:
-		return B.Wrap(B.Sub(x, y), signed, bits), nil
+		return in.wrap(B.Sub(x, y), signed, bits), nil
 	case token.MUL:
-		return B.Wrap(B.Mul(x, y), signed, bits), nil
+		return in.wrap(B.Mul(x, y), signed, bits), nil
 	case token.QUO, token.REM:
 		if !in.obligation(B.Not(B.Eq(y, B.Int64(0))), "divide-by-zero") {
 			return nil, in.mkPanic("divide", "integer divide by zero")
@@ -87,7 +87,7 @@ func (in *Interp) binop(op token.Token, xv, yv Value, xt, yt, rt types.Type) (Va
 		if x.NonNeg() && y.IsConst() && y.I.Sign() > 0 {
 			return B.Mod(x, y), nil
 		}
-		return B.Wrap(B.Sub(x, B.Mul(y, q)), signed, bits), nil
+		return in.wrap(B.Sub(x, B.Mul(y, q)), signed, bits), nil
 	case token.AND:
 		return in.bitAnd(x, y, signed, bits), nil
 	case token.OR:
@@ -801,7 +801,7 @@ func (in *Interp) convert(v Value, from, to types.Type) (Value, *iPanic) {
 	_, _ = fs, fbits
 	switch {
 	case fInt && tInt:
-		return B.Wrap(t, ts, tbits), nil
+		return in.wrap(t, ts, tbits), nil
 	case fInt && tFloat:
 		return in.roundF(B.ToReal(t), tb), nil
 	case fFloat && tFloat:
